@@ -311,7 +311,7 @@ func TestCheck(t *testing.T) {
 	})
 
 	// (c) concurrent announcements: porcupine max-register + quiescent probe
-	nConc := run.Pick(20, 300)
+	nConc := run.Pick(40, 300)
 	for c := 0; c < nConc; c++ {
 		caseID := fmt.Sprintf("concurrent-%d", c)
 		if !run.Want(caseID) {
